@@ -43,8 +43,27 @@ def filling_of(case):
 
 
 def make_ps(s, case, data):
+    """a phase space holding `data`.  In half of the cases (decided by a hash of the data, so a case stays a pure function of
+    its JSON) the object is long-lived: it is built with OTHER content first - a few impulses, zero elsewhere - brought up
+    to date, and then gets `data` written into its grid in place, as HDF5File::readPhaseSpace and the maps do.  What the
+    object reports must depend on the data it holds now, not on what its caches saw before (round-8 seed C09h)."""
+    import zlib
     L, sx, sy = case["L"], case["sx"], case["sy"]
-    return s.ps_new(-L + sx, L + sx, -L + sy, L + sy, filling=filling_of(case), data=data)
+    data = np.ascontiguousarray(data, np.float32)
+    hsh = zlib.crc32(data.tobytes())
+    if hsh % 2 == 0:
+        return s.ps_new(-L + sx, L + sx, -L + sy, L + sy, filling=filling_of(case), data=data)
+    r = np.random.Generator(np.random.PCG64(hsh))
+    prev = np.zeros_like(data)
+    nb, n = data.shape[0], data.shape[1]
+    for b in range(nb):
+        for _ in range(3):
+            prev[b, int(r.integers(0, n)), int(r.integers(0, n))] = np.float32(r.random() + 0.1)
+    h = s.ps_new(-L + sx, L + sx, -L + sy, L + sy, filling=filling_of(case), data=prev)
+    for op in ("updateX", "updateY", "integrate"):
+        s.ps_op(h, op)
+    s.ps_data(h)[:] = data
+    return h
 
 
 # ------------------------------------------------------------------ normalisation
@@ -139,7 +158,11 @@ def mixture(case, b, n):
 
 
 def refresh(s, h):
-    for op in ("updateX", "updateY", "integrate", "variance0", "variance1"):
+    # the two projections are independent functions of the grid data: either may be refreshed first (the order alternates
+    # with a counter that restarts with every case, and depends on the grid size)
+    s._refresh = getattr(s, "_refresh", 0) + 1
+    first = ("updateX", "updateY") if (s._refresh + s.n) % 2 == 0 else ("updateY", "updateX")
+    for op in first + ("integrate", "variance0", "variance1"):
         s.ps_op(h, op)
 
 
